@@ -101,8 +101,11 @@ func NewReverseSuffixSearcher(
 	}
 	suffixLen := len(suffixBytes)
 
-	// Build prefilter from suffix literals
-	builder := prefilter.NewBuilder(nil, suffixLiterals)
+	// Build the prefilter from the common suffix itself: every candidate position is
+	// taken to be the start of suffixBytes (revEnd = pos + suffixLen). A prefilter over
+	// the individual literals ({bab, abb} with common suffix "b") reports where one of
+	// THEM starts, which is not where the common suffix starts.
+	builder := prefilter.NewBuilder(nil, literal.NewSeq(literal.NewLiteral(suffixBytes, false)))
 	pre := builder.Build()
 	if pre == nil {
 		// No prefilter available - cannot use this optimization
